@@ -7,7 +7,7 @@ pat=${1:-}
 fail=0
 # work on a snapshot so that edits made while this runs do not disturb it
 SNAP=$(mktemp -d /tmp/fvc-snap.XXXXXX)
-mkdir -p "$SNAP/repo" "$SNAP/spec"; cp /repo/*.go /repo/go.mod /repo/go.sum "$SNAP/repo/"; cp "$V"/spec/*.fvs "$SNAP/spec/"; cp "$V/bin/fvc" "$SNAP/fvc"; cp "$V/known_findings.json" "$SNAP/"
+mkdir -p "$SNAP/repo" "$SNAP/spec"; cp /repo/*.go /repo/go.mod /repo/go.sum "$SNAP/repo/"; cp "$V"/spec/* "$SNAP/spec/"; cp "$V/bin/fvc" "$SNAP/fvc"; cp "$V/known_findings.json" "$SNAP/"
 trap 'rm -rf "$SNAP"' EXIT
 for m in "$V"/selftest/mutants/*${pat}*.patch "$V"/seeded/*${pat}*/patch.diff; do
   [ -f "$m" ] || continue
